@@ -2561,15 +2561,35 @@ def _new_default_params(repo, fi, ref_bindings: list[str]) -> dict:
                     fname = c.func.attr if isinstance(c.func, ast.Attribute) else c.func.id if isinstance(c.func, ast.Name) else None
                     if fname == fi.name:
                         calls.append(c)
+    # a method of the same name (the function itself, an override, the parent scope's implementation) that hands on its own
+    # parameter of that name, with the same default, passes nothing new: the value is still the default unless somebody else passes it
+    handed_on = {}
+    if fi.name != '__init__':
+        for g in repo.functions.values():
+            if g.name != fi.name:
+                continue
+            ga = g.node.args
+            gp = ga.posonlyargs + ga.args
+            gdef = dict(zip([x.arg for x in gp[len(gp) - len(ga.defaults):]], ga.defaults))
+            for x, d in zip(ga.kwonlyargs, ga.kw_defaults):
+                if d is not None:
+                    gdef[x.arg] = d
+            stored = {n.id for n in ast.walk(g.node) if isinstance(n, ast.Name) and isinstance(n.ctx, ast.Store)}
+            same = {x for x in new if x in gdef and _u(gdef[x]) == _u(new[x]) and x not in stored}
+            if same:
+                for c in ast.walk(g.node):
+                    if isinstance(c, ast.Call):
+                        handed_on[id(c)] = same
     for c in calls:
         if any(k.arg is None for k in c.keywords) or any(isinstance(x, ast.Starred) for x in c.args):
             return {}
+        own = handed_on.get(id(c), set())
         for k in c.keywords:
-            if k.arg in new and _u(k.value) == _u(new[k.arg]):
-                continue            # the default itself, spelled out
+            if k.arg in new and (_u(k.value) == _u(new[k.arg]) or (k.arg in own and _u(k.value) == k.arg)):
+                continue            # the default itself, spelled out (or handed on)
             new.pop(k.arg, None)
         for p in list(new):
-            if p in pos and len(c.args) > pos[p] and _u(c.args[pos[p]]) != _u(new[p]):
+            if p in pos and len(c.args) > pos[p] and _u(c.args[pos[p]]) != _u(new[p]) and not (p in own and _u(c.args[pos[p]]) == p):
                 new.pop(p, None)
     return new
 
